@@ -96,8 +96,10 @@ func main() {
 	seed := flag.Int64("seed", 0, "")
 	selfcheck := flag.Bool("selfcheck", false, "vacuity twin: every Reach is reported as a violation")
 	cpuprof := flag.String("cpuprofile", "", "")
+	tracecap := flag.Int("tracecap", 60, "events kept in violation traces")
 	restart := flag.Int("restart", 50, "restart solver every N paths")
 	flag.Parse()
+	exec.SetTraceCap(*tracecap)
 	if *cpuprof != "" {
 		f, _ := os.Create(*cpuprof)
 		pprof.StartCPUProfile(f)
